@@ -21,6 +21,7 @@ import (
 	"reflect"
 	"sort"
 	"strings"
+	"time"
 
 	"github.com/blinklabs-io/gouroboros/cbor"
 	lcommon "github.com/blinklabs-io/gouroboros/ledger/common"
@@ -44,7 +45,7 @@ import (
 )
 
 func init() {
-	register(&Prop{ID: "C04", Gen: genC04, Run: runC04})
+	register(&Prop{ID: "C04", Gen: genC04, Run: runC04, Timeout: 60 * time.Second})
 }
 
 type c04Proto struct {
